@@ -638,7 +638,7 @@ SUBCHECKS = [
     SubCheck("twin_histories", oracle_twin_history, gen=twin_history_cases,
              quick=(4, 250), thorough=(8, 2500)),
     SubCheck("rp_twins", oracle_rp_twins, gen=rp_twin_cases,
-             quick=(2, 150), thorough=(4, 1500)),
+             quick=(4, 250), thorough=(8, 1500)),
     SubCheck("row_independence", oracle_row_independence,
              gen=row_independence_cases, quick=(4, 250), thorough=(8, 2500)),
 ]
